@@ -48,9 +48,9 @@ Fixpoint dict_close (tol scale : Q) (a b : list (string * list Q)) : nat :=
 
 (* calculate_human_consumption_for_min_needs: 1 values, 2 keys/order, 3 number of keys,
    4 model accepts / implementation raised, 5 model rejects / implementation returned *)
-Definition check_min_needs (tol scale : Q) (K T pf Kconv : Q) (N : nat) (r : r1_eaten)
+Definition check_min_needs (tol scale : Q) (tracked : bool) (K T pf Kconv : Q) (N : nat) (r : r1_eaten)
            (obs : observed (list (string * list Q))) : nat :=
-  match min_needs K T pf Kconv N r, obs with
+  match min_needs_gen tracked K T pf Kconv N r, obs with
   | Ok d, OVal o => dict_close tol scale d o
   | Rejected, ORaised => 0%nat
   | Ok _, _ => 4%nat
